@@ -111,5 +111,6 @@ Definition http_response (pre post date : bytes) : bytes := pre ++ date ++ post.
 Definition http_repl (tbl : smack) (pre post date : bytes) (s : http_st) (data : bytes)
   : res (http_st * option bytes) :=
   do s' <- http_parse tbl s data;
-  if h_state s' =? HTTP_CONTENT then Ok (s', Some (http_response pre post date))
+  (* once the request is answered, what follows on the flow is parsed as a new request *)
+  if h_state s' =? HTTP_CONTENT then Ok (http_new, Some (http_response pre post date))
   else Ok (s', None).
